@@ -28,6 +28,7 @@
 #include <ascon/random.h>
 #include <ascon/utility.h>
 #include <ascon/permutation.h>
+#include "adp_masked.h"
 
 typedef std::vector<uint8_t> Bytes;
 
@@ -322,6 +323,65 @@ static void random_group(FuzzedDataProvider &f) {
     EXPECT(memcmp(n, m, 16) == 0, "increment_nonce");
 }
 
+// masked word / state toolkit (internal, through the per-configuration adapter)
+static void masked_group(FuzzedDataProvider &f) {
+    int mx = adp_max_shares();
+    int n = 2 + f.ConsumeIntegralInRange<int>(0, mx - 2), m = 2 + f.ConsumeIntegralInRange<int>(0, mx - 2);
+    size_t ws = adp_word_size(), ss = adp_state_size();
+    int steps = f.ConsumeIntegralInRange<int>(1, 10);
+    // a pool of two exact-size words holding x-n masked values with a plain model
+    uint8_t *w[2] = {(uint8_t *)malloc(ws), (uint8_t *)malloc(ws)};
+    uint64_t model[2];
+    for (int i = 0; i < 2; ++i) { Bytes d = takeN(f, 8); adp_w_load(n, w[i], d.data()); model[i] = 0; for (int k = 0; k < 8; ++k) model[i] = (model[i] << 8) | d[k]; }
+    for (int s = 0; s < steps; ++s) {
+        int op = f.ConsumeIntegralInRange<int>(0, 9), a = f.ConsumeIntegralInRange<int>(0, 1), b = 1 - a;
+        unsigned size = f.ConsumeIntegralInRange<unsigned>(1, 7);
+        Bytes d = takeN(f, 8);
+        uint64_t dv = 0; for (int k = 0; k < 8; ++k) dv = (dv << 8) | d[k];
+        B data(d, f.ConsumeIntegral<uint8_t>());
+        switch (op) {
+        case 0: adp_w_load(n, w[a], data.p); model[a] = dv; break;
+        case 1: { B part(Bytes(d.begin(), d.begin() + size), size); adp_w_load_partial(n, w[a], part.p, size); model[a] = size == 8 ? dv : (dv >> (8 * (8 - size))) << (8 * (8 - size)); break; }
+        case 2: { B d1(Bytes(d.begin(), d.begin() + 4), 1), d2(Bytes(d.begin() + 4, d.end()), 2); adp_w_load_32(n, w[a], d1.p, d2.p); model[a] = dv; break; }
+        case 3: adp_w_xor(n, w[a], w[b]); model[a] ^= model[b]; break;
+        case 4: { uint64_t mask = ~(uint64_t)0 << (8 * (8 - size)); adp_w_replace(n, w[a], w[b], size); model[a] = (model[a] & ~mask) | (model[b] & mask); break; }
+        case 5: adp_w_zero(n, w[a]); model[a] = 0; break;
+        case 6: adp_w_randomize(n, w[a], f.ConsumeBool() ? w[a] : w[b]); if (0) {} break;
+        case 7: adp_w_pad(w[a], size - 1); model[a] ^= (uint64_t)0x80 << (8 * (7 - (size - 1))); break;
+        case 8: adp_w_separator(w[a]); model[a] ^= 1; break;
+        default: { B o(size, size); adp_w_store_partial(n, o.p, size, w[a]); for (unsigned k = 0; k < size; ++k) EXPECT(o.p[k] == (uint8_t)(model[a] >> (8 * (7 - k))), "masked store_partial"); break; }
+        }
+        if (op == 6) { // randomize(dest, src): dest takes src's value
+            // (when dest != src the destination becomes a fresh sharing of the source value)
+        }
+        // re-derive the model of a randomize with dest != src from the store below
+        for (int i = 0; i < 2; ++i) {
+            B o(8, i + 3);
+            adp_w_store(n, o.p, w[i]);
+            uint64_t got = 0; for (int k = 0; k < 8; ++k) got = (got << 8) | o.p[k];
+            if (op == 6) model[i] = (i == a) ? got : model[i];
+            EXPECT(got == model[i], "masked word value after operation");
+        }
+    }
+    free(w[0]); free(w[1]);
+    // state: from_x1(m) -> copy to n shares -> permute -> to_x1
+    Bytes st = takeN(f, 40);
+    int fr = f.ConsumeIntegralInRange<int>(0, 11);
+    void *ms = malloc(ss), *ms2 = malloc(ss);
+    adp_s_init(ms); adp_s_init(ms2);
+    adp_s_from_x1(m, ms, st.data());
+    adp_s_copy(n, m, ms2, ms);
+    uint64_t *pres = (uint64_t *)malloc(8 * (size_t)(n - 1));
+    for (int i = 0; i < n - 1; ++i) pres[i] = f.ConsumeIntegral<uint64_t>();
+    adp_s_permute(n, ms2, (uint8_t)fr, pres);
+    uint8_t out[40];
+    adp_s_to_x1(n, out, ms2);
+    ref::State r; memcpy(r.b, st.data(), 40); ref::permute(r, fr);
+    EXPECT(memcmp(out, r.b, 40) == 0, "masked permutation");
+    adp_s_free(ms); adp_s_free(ms2);
+    free(ms); free(ms2); free(pres);
+}
+
 extern "C" int LLVMFuzzerTestOneInput(const uint8_t *data, size_t size) {
     FuzzedDataProvider f(data, size);
     // nothing leaks between iterations: the tape is reset from the input
@@ -331,7 +391,7 @@ extern "C" int LLVMFuzzerTestOneInput(const uint8_t *data, size_t size) {
     if (tk == 2) memset(g_tape, 0xff, sizeof g_tape);
     tape_words_set(g_tape, 16);
     tape_sys_set(nullptr, 0, nullptr, 0);
-    int group = f.ConsumeIntegralInRange<int>(0, 10);
+    int group = f.ConsumeIntegralInRange<int>(0, 11);
     switch (group) {
     case 0: case 1: case 2: case 3: case 4: aead_group(f, group); break;
     case 5: hash_group(f); break;
@@ -339,6 +399,7 @@ extern "C" int LLVMFuzzerTestOneInput(const uint8_t *data, size_t size) {
     case 7: kdf_group(f); break;
     case 8: hex_group(f); break;
     case 9: perm_group(f); break;
+    case 11: masked_group(f); break;
     default: random_group(f); break;
     }
     return 0;
